@@ -290,12 +290,13 @@ func TestVfC14Stale(t *testing.T) {
 }
 
 func TestVfC14MassWake(t *testing.T) {
-	st := vfkit.Stats("TestVfC14MassWake", "n in 2..40 exchanges with 5 s deadlines wait on one multiplexed connection (tcp+pipeline, tls+pipeline, quic) whose replies the server holds; the server then kills the connection; oracle: all n exchanges return (error, or success through a retry on a new connection) within 1.5 s of the kill; non-trivial = every case")
+	st := vfkit.Stats("TestVfC14MassWake", "n in 2..40 (one case in three 65..200, i.e. more than one pipelined connection holds) exchanges with 5 s deadlines wait on multiplexed connections (tcp+pipeline, tls+pipeline, quic) whose replies the server holds; the server then kills its connections; oracle: all n exchanges return (error, or success through a retry on a new connection) within 1.5 s of the kill; non-trivial = every case")
 	defer vfkit.Flush()
 	_, leaf := vfTLSMaterial()
 	rapid.Check(t, func(t *rapid.T) {
 		kind := rapid.SampledFrom([]string{"tcp+pipeline", "tls+pipeline", "quic"}).Draw(t, "kind")
-		n := rapid.IntRange(2, 40).Draw(t, "n")
+		// (beyond 64 the pipelined transports spread the exchanges over several connections - all of them are killed)
+		n := rapid.OneOf(rapid.IntRange(2, 40), rapid.IntRange(2, 40), rapid.IntRange(65, 200)).Draw(t, "n")
 		gate := make(chan struct{})
 		var arrived atomic.Int32
 		var released atomic.Bool
